@@ -473,18 +473,193 @@ def _r2_layout(model, rep):
         else:
             raise AnalysisError(f"{c.name}._uniform: connectivity "
                                 f"construction not recognised")
-    # the generic propagation itself
-    fn = model.func("skfem.mesh.mesh", "Mesh.refined")
-    s = src(fn.node)
-    ok = ("new_t[0] = np.arange(m.t.shape[1], dtype=np.int32)" in s
-          and "new_t[itr + 1] = new_t[itr] + m.t.shape[1]" in s
-          and "N = int(mtmp.t.shape[1] / m.t.shape[1])" in s)
+    _generic_propagation(model, rep)
+
+
+def _last_writer(rep, rule, clsname, fn):
+    """The parent-facet -> child-facet table is filled by vectorised stores
+    ``table[row, t2f[slot]] = ...`` over all cells at once.  An interior
+    facet is slot k of one neighbour and slot k' of the other, so both
+    neighbours write its column and the later statement wins, row by row.
+    The halves recorded in the rows of one column must come from the *same*
+    neighbour (the two neighbours may traverse the facet in opposite
+    directions, so 'first half' of one is 'second half' of the other):
+    for every pair of slots the statement order must be the same in every
+    row."""
+    stores = []
+    for n in walk_no_nested(fn.node):
+        if isinstance(n, ast.Assign) and isinstance(
+                n.targets[0], ast.Subscript) and isinstance(
+                n.targets[0].slice, ast.Tuple) and len(
+                n.targets[0].slice.elts) == 2:
+            r, c = n.targets[0].slice.elts
+            if isinstance(r, ast.Constant) and isinstance(r.value, int) \
+                    and isinstance(c, ast.Subscript) and src(
+                        c.value) == "t2f" and isinstance(
+                        c.slice, ast.Constant):
+                stores.append((n.lineno, n.col_offset,
+                               src(n.targets[0].value), r.value,
+                               c.slice.value))
+    stores.sort()
+    tables = {}
+    for pos, (_, _, tab, row, slot) in enumerate(stores):
+        tables.setdefault(tab, {}).setdefault(row, {})[slot] = pos
+    if not tables:
+        raise AnalysisError(f"{clsname}._uniform: stores into the facet "
+                            f"table not found")
+    for tab, rows in tables.items():
+        orders = {r: tuple(sorted(p, key=lambda k: p[k]))
+                  for r, p in rows.items()}
+        cons = f"{clsname}._uniform:{tab}:last-writer"
+        if len(set(orders.values())) == 1 and len(rows) >= 2:
+            rep.ok(rule, cons, f"slots are written in the order "
+                   f"{next(iter(orders.values()))} in every row: both rows "
+                   f"of a shared facet's column end up from the same "
+                   f"neighbour")
+        else:
+            rep.fail(rule, fn.path, fn.short(), cons,
+                     f"rows of {tab} are filled in different slot orders "
+                     f"{orders}: for an interior facet that is slot a of "
+                     f"one neighbour and slot b of the other, row 0 can "
+                     f"keep the value written by one neighbour and row 1 "
+                     f"the value written by the other - both then name the "
+                     f"same half of the facet and a named interior "
+                     f"boundary loses the other half", fn.lineno)
+
+
+def _generic_propagation(model, rep):
+    """Symbolic run of Mesh.refined(2) on a stub mesh whose _uniform leaves
+    the subdomains to the generic propagation: after every pass the named
+    cells must be the children k + b * nt (b = 0..N-1) of the cells named
+    *after the previous pass* (not of the original mesh's)."""
+    R2 = "C12-R2"
+    mcls = model.cls("skfem.mesh.mesh", "Mesh")
+    fn = mcls.methods["refined"]
+    NT = [5, 20, 80]
+
+    class TS:
+        def __init__(self, nt):
+            self.nt = nt
+
+        def skv_getattr(self, name):
+            if name == "shape":
+                return (3, self.nt)
+            raise Unsupported("t." + name)
+
+    class Rows:
+        skv_isarray = True
+
+        def __init__(self, n, nt):
+            self.rows = [None] * n
+            self.nt = nt
+
+        def skv_setitem(self, ix, v):
+            if isinstance(ix, Fraction):
+                ix = int(ix)
+            if not isinstance(ix, int):
+                raise Unsupported("child table store")
+            self.rows[ix] = v
+
+        def skv_getitem(self, ix):
+            if isinstance(ix, Fraction):
+                ix = int(ix)
+            if isinstance(ix, int):
+                return self.rows[ix]
+            if isinstance(ix, tuple) and len(ix) == 2 and \
+                    ix[0] == slice(None):
+                return Kids(tuple(self.rows), ix[1])
+            raise Unsupported("child table index")
+
+    class Kids:
+        skv_isarray = True
+
+        def __init__(self, rows, of):
+            self.rows, self.of = rows, of
+
+        def skv_getattr(self, name):
+            if name in ("flatten", "ravel", "astype"):
+                return PyFunc(lambda a, k, n: self)
+            raise Unsupported("children." + name)
+
+    class Off:
+        """arange(nt) + shift"""
+        skv_isarray = True
+
+        def __init__(self, nt, shift=0):
+            self.nt, self.shift = nt, shift
+
+        def skv_binop(self, op, other, reflected):
+            if isinstance(op, ast.Add) and isinstance(other, (int,
+                                                              Fraction)):
+                return Off(self.nt, self.shift + int(other))
+            raise Unsupported("arithmetic on a child row")
+
+        def __eq__(self, o):
+            return isinstance(o, Off) and (self.nt, self.shift) == (
+                o.nt, o.shift)
+
+        def __hash__(self):
+            return hash((self.nt, self.shift))
+
+    def hook(interp, name, args, kwargs, node):
+        if name == "numpy.zeros":
+            shp = args[0]
+            return Rows(int(shp[0]), int(shp[1]))
+        if name == "numpy.arange":
+            return Off(int(args[0]))
+        if name in ("numpy.sort", "numpy.unique"):
+            return args[0]
+        if name == "dataclasses.replace":
+            base = args[0]
+            o = Obj(base.cls, dict(base.attrs))
+            o.attrs.update(kwargs)
+            return o
+        return NotImplemented
+
+    def mk(level, sub):
+        attrs = {"t": TS(NT[level]), "_subdomains": sub, "_boundaries": None}
+        o = Obj(mcls, attrs)
+        if level + 1 < len(NT):
+            o.attrs["_uniform"] = PyFunc(
+                lambda a, k, n, lv=level: mk(lv + 1, None))
+        return o
+    S0 = "IXS0"
+    m0 = mk(0, {"s": S0})
+    try:
+        it = Interp(model, call_hook=hook)
+        r = it.call(fn, [2], {}, self_obj=m0)
+    except (Unsupported, Raised) as e:
+        raise AnalysisError(f"Mesh.refined(2): {e}")
+    sub = r.attrs.get("_subdomains") if isinstance(r, Obj) else None
+    got = sub.get("s") if isinstance(sub, dict) else None
+
+    def describe(v, depth=0):
+        if isinstance(v, Kids):
+            sh = sorted({(x.nt, x.shift) for x in v.rows
+                         if isinstance(x, Off)})
+            return f"children{[s_[1] for s_ in sh]}(nt={v.rows[0].nt if isinstance(v.rows[0], Off) else '?'}) of " + describe(v.of, depth + 1)
+        return repr(v)
+    ok = isinstance(got, Kids)
+    if ok:
+        # second pass: rows k + b*20, b = 0..3, applied to the first pass'
+        # result: rows k + b*5 applied to the original tag
+        ok = (set(got.rows) == {Off(20, b * 20) for b in range(4)}
+              and isinstance(got.of, Kids)
+              and set(got.of.rows) == {Off(5, b * 5) for b in range(4)}
+              and got.of.of == S0)
     if ok:
         rep.ok(R2, "Mesh.refined:generic-propagation",
-               "child b of cell k is cell k + b * nt")
+               "after each pass the tag is the set of children k + b*nt of "
+               "the cells tagged after the previous pass")
     else:
-        raise AnalysisError("Mesh.refined: generic subdomain propagation "
-                            "not recognised")
+        rep.fail(R2, fn.path, "Mesh.refined",
+                 "Mesh.refined:generic-propagation",
+                 f"after two passes the subdomain is {describe(got)}; "
+                 f"expected children[0, 20, 40, 60](nt=20) of "
+                 f"children[0, 5, 10, 15](nt=5) of the original tag: each "
+                 f"pass must start from the cells tagged after the "
+                 f"previous pass, with child b of cell k at k + b*nt",
+                 fn.lineno)
 
 
 def _r4_warnings(model, rep):
@@ -570,6 +745,8 @@ def run(model: Model, rep, tier: str) -> None:
                         tag="cells as listed (sort_t=False)")
         if clsname == "MeshTet1":
             _tet_table(model, rep, modname, clsname, refdoms[rdn])
+        if clsname in ("MeshTri1", "MeshQuad1"):
+            _last_writer(rep, "C12-R3", clsname, fn)
     _r4_warnings(model, rep)
     rep.require_min("C12-R1", 10)
     rep.require_min("C12-R2", 5)
@@ -583,6 +760,26 @@ _TE = "skfem/mesh/mesh_tet_1.py"
 _LI = "skfem/mesh/mesh_line_1.py"
 _ME = "skfem/mesh/mesh.py"
 MUTANTS = [
+    ("generic subdomain propagation restarts from the original tags",
+     ("skfem/mesh/mesh.py", "                            for name, ixs in "
+      "m._subdomains.items()", "                            for name, ixs in "
+      "self._subdomains.items()"), "C12-R2"),
+    ("quadrilateral facet table filled child by child",
+     ("skfem/mesh/mesh_quad_1.py",
+      "            new_facets[1, t2f[0]] = m.t2f[0, ix1]\n"
+      "            new_facets[0, t2f[1]] = m.t2f[1, ix1]\n"
+      "            new_facets[1, t2f[1]] = m.t2f[1, ix2]\n"
+      "            new_facets[0, t2f[2]] = m.t2f[2, ix2]\n"
+      "            new_facets[1, t2f[2]] = m.t2f[2, ix3]\n"
+      "            new_facets[0, t2f[3]] = m.t2f[3, ix3]\n"
+      "            new_facets[1, t2f[3]] = m.t2f[3, ix0]\n",
+      "            new_facets[1, t2f[3]] = m.t2f[3, ix0]\n"
+      "            new_facets[0, t2f[1]] = m.t2f[1, ix1]\n"
+      "            new_facets[1, t2f[0]] = m.t2f[0, ix1]\n"
+      "            new_facets[0, t2f[2]] = m.t2f[2, ix2]\n"
+      "            new_facets[1, t2f[1]] = m.t2f[1, ix2]\n"
+      "            new_facets[0, t2f[3]] = m.t2f[3, ix3]\n"
+      "            new_facets[1, t2f[2]] = m.t2f[2, ix3]\n"), "C12-R3"),
     ("triangle refinement keeps the old named boundaries",
      (_TR, "                np.vstack((t2f[0] + sz, t2f[1] + sz, t2f[2] + "
       "sz)),\n            )),\n            _boundaries=None,\n",
@@ -644,6 +841,22 @@ MUTANTS = [
       "        has_boundaries = self.boundaries is None\n"), "C12-R4"),
 ]
 TWINS = [
+    ("quadrilateral facet table filled row by row in one slot order",
+     ("skfem/mesh/mesh_quad_1.py",
+      "            new_facets[1, t2f[0]] = m.t2f[0, ix1]\n"
+      "            new_facets[0, t2f[1]] = m.t2f[1, ix1]\n"
+      "            new_facets[1, t2f[1]] = m.t2f[1, ix2]\n"
+      "            new_facets[0, t2f[2]] = m.t2f[2, ix2]\n"
+      "            new_facets[1, t2f[2]] = m.t2f[2, ix3]\n"
+      "            new_facets[0, t2f[3]] = m.t2f[3, ix3]\n"
+      "            new_facets[1, t2f[3]] = m.t2f[3, ix0]\n",
+      "            new_facets[0, t2f[1]] = m.t2f[1, ix1]\n"
+      "            new_facets[0, t2f[2]] = m.t2f[2, ix2]\n"
+      "            new_facets[0, t2f[3]] = m.t2f[3, ix3]\n"
+      "            new_facets[1, t2f[0]] = m.t2f[0, ix1]\n"
+      "            new_facets[1, t2f[1]] = m.t2f[1, ix2]\n"
+      "            new_facets[1, t2f[2]] = m.t2f[2, ix3]\n"
+      "            new_facets[1, t2f[3]] = m.t2f[3, ix0]\n")),
     ("triangle children listed in another block order with the facet map "
      "adjusted",
      (_TR, "            new_facets[0, t2f[2]] = m.t2f[2, ix0]\n",
